@@ -158,6 +158,18 @@ def cases(chk):
                 lines.append("%s%s%s=%s%s%s" % (r.choice(["", " "]), r.choice(["a", "a-b", "cc", "push_name", "x y"]), r.choice(["", " ", "\t"]),
                                                 r.choice(["", " "]), _text(r, r.random() < 0.2, False), r.choice(["", " ", "\r", " # c", ";z"])))
         yield "keyval-raw", {"text": "\n".join(lines)}
+    # large configurations (a long push name, a long routing blob): serialised sizes around every power of two from 512 B to 128 KiB — a
+    # reader that looks at only part of the file shows here
+    for i, size in enumerate([500, 1000, 1100, 2000, 4000, 4200, 8100, 8300, 16500, 33000, 66000, 131500]):
+        for fmt in ("json", "keyval"):
+            cfg = {"phone": "491234", "cc": 49, "client_static_keypair": "44" * 64, "server_static_public": "55" * 32}
+            if i % 2:
+                cfg["edge_routing_info"] = (bytes(range(256)) * (size // 256 + 1))[:size // 3].hex()
+            else:
+                cfg["pushname"] = ("long push name %d " % size) * (size // 18 + 1)
+                cfg["pushname"] = cfg["pushname"][:size].strip()
+            for how in (["path-noext", "path-ext", "profile"] if size < 20000 or not chk.quick() else ["path-noext"]):
+                yield "config", {"fmt": fmt, "how": how, "cfg": cfg}
     for _ in range(chk.scale(200, 6000)):
         fmt = r.choice(["json", "keyval"])
         how = r.choice(["path-ext", "path-noext", "profile", "fresh-profile", "dest", "profile-resave", "profile-both"])
